@@ -96,5 +96,10 @@ if __name__ == "__main__":
                 out[name] = {"obsolete": meta["obsolete"]["since"]}
                 continue
             if os.path.exists(os.path.join(VERIF, "harness", "props", pid + ".py")):
-                out[name] = run(name, [pid], tier)
+                try:
+                    out[name] = run(name, [pid], tier)
+                except AssertionError as e:
+                    out[name] = {pid: {"rc": -1, "violations": [], "error": str(e)[:200]}}
+                    sh(f"git -C {REPO} checkout -- .")
+                    print(name, "ERROR", str(e)[:200])
         json.dump(out, open(os.path.join(VERIF, "seeded", "MATRIX.json"), "w"), indent=1)
